@@ -110,6 +110,12 @@ TInplace == /\ Is("inplace") /\ UNCHANGED <<vars, kind, fs, sizes, xd>>
                IN bad' = bad \cup Flag(refetched \subseteq invalidIds, "the re-run fetched a chunk whose range was already written correctly before the death")
                              \cup Flag(e.n = "1" => refetched \subseteq firstInvalidIds, "the re-run (one worker) fetched a chunk again that an earlier position of the file already holds")
                              \cup Flag(e.rerun_ok /\ e.final_ok, "the re-run of the in-place extract did not complete with the correct output")
+                             \* one worker asks for the next chunk only after it wrote the previous one into the destination: what it had been given
+                             \* before the request at which it was killed is in the destination (that is what makes the re-run cheap)
+                             \cup (IF "answered" \in DOMAIN e /\ e.n = "1" /\ e.killed
+                                   THEN Flag(\A i \in 1..Len(e.answered) : \E c \in 1..Len(e.ids) : e.ids[c] = e.answered[i] /\ (\E j \in 1..Len(e.valid) : e.valid[j] = c),
+                                             "a chunk the killed in-place extract had already been given is not in the destination: the re-run has to fetch it again")
+                                   ELSE {})
 
 TNext == TReset \/ TStutter \/ TTmp \/ TWritten \/ TClosed \/ TExit \/ TRet \/ TPrune \/ TEnd \/ THang \/ TSys \/ TXsys \/ TKill \/ TXkill \/ TInplace
 TSpec == TInit /\ [][TNext]_tvars
